@@ -9,7 +9,8 @@
 // CPPEnumType / CPPStructType built by their real constructors), classified by the real TypeManager code.
 // Replaced (cut): TypeManager::resolve_type (identity: the types are already resolved), CPPParser::parse_type (the look-up of
 // std::basic_string<char> / <wchar_t> by TypeManager::get_basic_string_*_type: answers the harness' "string" class / unknown) and
-// CPPType::get_local_name (an ostringstream print; only compared with class names, answers "#").
+// CPPType::get_local_name / CPPExtensionType::get_local_name (ostringstream prints; only compared with class names: answer "#" / the
+// plain class name of the identifier).
 //
 // The oracle is independent of the ranks: per type the set A of Python argument categories its extraction accepts
 // at run time (read off write_function_instance: bool = PyObject_IsTrue accepts everything, double/float =
@@ -63,6 +64,9 @@ CPPType *CPPParser::parse_type(const std::string &type) {      // "std::basic_st
   return (type.size() == 23) ? g_string_type : nullptr;
 }
 std::string CPPType::get_local_name(CPPScope *) const { return std::string("#"); }
+std::string CPPExtensionType::get_local_name(CPPScope *) const {      // the real one prints the name through an ostringstream
+  return _ident == nullptr ? std::string() : _ident->_names.back().get_name();
+}
 
 static NOINL CPPStructType *make_class(const char *name) {
   CPPIdentifier *ident = new CPPIdentifier(std::string(name));
